@@ -27,6 +27,11 @@ impl IsInRange for i64 {
     }
 }
 
+/// Only a whole number within the LONG range fits into a whole number type.
+fn is_whole_long(f: f64) -> bool {
+    f == f.round() && f >= (MIN_LONG as f64) && f <= (MAX_LONG as f64)
+}
+
 pub trait FitToType {
     fn fit_to_type(self) -> Variant;
 }
@@ -57,24 +62,20 @@ impl FitToType for i64 {
 
 impl FitToType for f32 {
     fn fit_to_type(self) -> Variant {
-        let diff = self - self.round();
-        let has_fraction = diff.abs() > 0.0001;
-        if has_fraction {
-            Variant::VSingle(self)
+        if is_whole_long(self as f64) {
+            (self as i64).fit_to_type()
         } else {
-            (self.round() as i64).fit_to_type()
+            Variant::VSingle(self)
         }
     }
 }
 
 impl FitToType for f64 {
     fn fit_to_type(self) -> Variant {
-        let diff = self - self.round();
-        let has_fraction = diff.abs() > 0.0001;
-        if has_fraction {
-            Variant::VDouble(self)
+        if is_whole_long(self) {
+            (self as i64).fit_to_type()
         } else {
-            (self.round() as i64).fit_to_type()
+            Variant::VDouble(self)
         }
     }
 }
